@@ -142,6 +142,12 @@ def build(tier):
                 sh2 = "UNIQUE" if si % 2 else "SHARED"
                 add("eq", "op_eq(s, %s, %s);" % (R(l, a, b, sh), R(3, a2, a2 + n, sh2)),
                     "eq_with " + D(l, a, b, sh) + " vs " + D(3, a2, a2 + n, sh2))
+    # equal alignment on both sides (same start % 8, whole-byte length): the case a "compare the backing bytes" shortcut
+    # would get wrong; the grid above always shifts the second operand
+    for a in ((4, 1, 7) if q else range(0, 8)):
+        for n in ((8,) if q and a != 1 else (8, 16)):
+            sh, sh2 = ("SHARED", "UNIQUE") if a % 2 else ("UNIQUE", "SHARED")
+            add("eq", "op_eq(s, %s, %s);" % (R(3, a, a + n, sh), R(3, a, a + n, sh2)), "eq_with (same alignment) " + D(3, a, a + n, sh) + " vs " + D(3, a, a + n, sh2))
     # --- chains (depth 2) and full-width argument arithmetic
     for i, (l, a, b) in enumerate(RQ[:8] if q else RM):
         sh = GROW[i % 5]
